@@ -180,6 +180,14 @@ func (s *State) runFrom(b *ssa.BasicBlock, i int) {
 				st.runFrom(b, next)
 			})
 			return
+		case *ssa.Go:
+			if s.joinedGo(x) {
+				next := i + 1
+				s.c.assumed["goroutines joined by a WaitGroup are executed at their spawn point (sound under the disjointness obligations of C08)"] = true
+				s.call(x, &x.Call, func(st *State, res []Val) { st.runFrom(b, next) })
+				return
+			}
+			s.step(instr)
 		case *ssa.RunDefers:
 			next := i + 1
 			s.runDefers(func(st *State) { st.runFrom(b, next) })
@@ -213,6 +221,11 @@ func (s *State) runFrom(b *ssa.BasicBlock, i int) {
 			s.fnStack = s.fnStack[:len(s.fnStack)-1]
 			if len(s.frames) > 0 {
 				s.frees = s.frames[len(s.frames)-1].frees
+				// source-level names of the caller come back into scope
+				s.names = make(map[string]nameBinding, len(fr.names))
+				for k, v := range fr.names {
+					s.names[k] = v
+				}
 			}
 			fr.retk(s, res)
 			return
@@ -290,6 +303,10 @@ func (s *State) callResolved(site ssa.Instruction, cc *ssa.CallCommon, fnv Val, 
 		recv := fnv
 		s.oblige("nil", site, c.ordinal(site, "nil"), not(eq(recv.S, "nilI")), "method call on nil interface: "+cc.Method.Name(), false)
 		s.assume(not(eq(recv.S, "nilI")))
+		if eng.ifaceInRepo(recv.T) {
+			s.oblige("nil", site, c.ordinal(site, "nilptr"), app("validI", recv.S), "method call on an interface holding a nil pointer: "+cc.Method.Name(), false)
+			s.assume(app("validI", recv.S))
+		}
 		key := eng.ifaceKey(recv.T, cc.Method.Name())
 		if lm, ok := eng.lib[key]; ok {
 			k(s, lm(s, site, append([]Val{recv}, args...)))
@@ -373,7 +390,11 @@ func (s *State) onStack(fn *ssa.Function) bool {
 }
 
 func (s *State) inline(fn *ssa.Function, args []Val, bindings []Val, k func(*State, []Val)) {
-	fr := frame{fn: fn, retk: k, names: map[string]nameBinding{}}
+	saved := make(map[string]nameBinding, len(s.names))
+	for k, v := range s.names {
+		saved[k] = v
+	}
+	fr := frame{fn: fn, retk: k, names: saved}
 	if len(fn.FreeVars) > 0 {
 		fr.frees = map[*ssa.FreeVar]Val{}
 		for i, fv := range fn.FreeVars {
